@@ -117,6 +117,9 @@ ASSUMPTIONS = [
     "chunk_size is a natural number (a negative one gives a plain ValueError of islice/deque at the first next, a "
     "non-integer a TypeError: unmodelled); steps are None, int, or float - every float step (finite, inf, nan) must be "
     "rejected with LenaValueError (oracle; model: StepArg.float); str/complex steps raise TypeError, True counts as 1: outside",
+    "start + step <= sys.maxsize when stop is None: beyond that CPython's itertools.islice overflows its signed counter "
+    "(islice(it, 1, None, sys.maxsize) on 4 values yields [1, 2]; observed on 3.12.1) and Slice inherits it; the model's "
+    "islice does not reproduce the overflow; these cases are excluded from correspondence and oracle",
     "values agree with the model but cost may not: next(islice(count(0), start, stop)) with stop <= start costs O(start) "
     "in the real code (Slice(10**8, 3).fill_into takes seconds before LenaStopFill); real termination time is not modelled",
     "start and stop beyond +-sys.maxsize are outside the oracle (limits of islice/deque: LenaValueError at construction "
@@ -147,7 +150,7 @@ RULE = ("quick and thorough: exhaustive enumeration of start,stop in {None,-7..7
         "RunningChunkBy by keyword and with truthy/falsy non-bool from_iterable; flow kinds deque/dict/set/frozenset/str/"
         "__iter__-only/__getitem__-only for a part of every family; steps inf, -inf, nan, 1e300; long inputs in both tiers "
         "(lengths 16,17,33,64,65,129,257 x 14 index values around them x steps None,2,17; Reverse up to 1000 values; Chain "
-        "iterables up to 257; chunk sizes 15..64; sessions with flows up to 129), thorough adds 2500 log-uniform cases "
+        "iterables up to 257; chunk sizes 15..64; sessions with flows up to 129), thorough adds 8000 log-uniform cases "
         "(lengths to 5000, indices to 2000, steps and chunk sizes to 300). Non-trivial: result non-empty, any event, or "
         "an exception.")
 CASE_TIMEOUT = 10
@@ -348,7 +351,7 @@ def _random_long_cases(rng):
             return None
         v = _logu(rng, hi)
         return -v if rng.random() < 0.5 else v
-    for _ in range(2500):
+    for _ in range(8000):
         r = rng.random()
         n = _logu(rng, 1500)
         if r < 0.35:
@@ -1190,7 +1193,7 @@ def _ref_spawner(case):
     raise ValueError(el)
 
 
-_REST_CAP = 300
+_REST_CAP = 20000     # longer than any finite flow of the generators; caps a mutated endless generator
 
 
 def _encv(v):
@@ -1321,6 +1324,8 @@ def model_requests(case):
     if op == "slice_inst":
         return [{"op": "slice_inst", "args": list(_args(case)), "ops": case["ops"]}]
     if op == "slice_args":
+        if _islice_overflow(case):
+            return []
         if any(isinstance(a, str) for a in case["args"]):
             args = case["args"]
             if len(args) == 3 and not any(isinstance(a, str) for a in args[:2]):
@@ -1582,9 +1587,22 @@ def oracle(case, res):
     raise ValueError(op)
 
 
+def _islice_overflow(case):
+    """CPython's islice computes `next += step` in a signed ssize_t: with stop None and start + step > sys.maxsize it
+    wraps and one value too many is yielded (islice(it, 1, None, sys.maxsize) on [0, 1, 2, 3] gives [1, 2]).  An upstream
+    defect at the very edge of the range, inherited by Slice (non-negative arguments only); see ASSUMPTIONS."""
+    args = case["args"]
+    if len(args) != 3 or any(isinstance(a, str) for a in args):
+        return False
+    a, b, st = args
+    return (b is None and isinstance(st, int) and 0 < st <= _MS and (a or 0) >= 0 and (a or 0) + st > _MS)
+
+
 def _oracle_ext(case, res):
     op = case["op"]
     if op == "slice_args":
+        if _islice_overflow(case):
+            return None
         args = [_dec(a) for a in case["args"]]
         if not 1 <= len(args) <= 3:
             return None                     # not a call form of the property
